@@ -1196,6 +1196,52 @@ fn main() {
     };
     let mut sent_total = 0usize;
     let mut ok_total = 0usize;
+    // meanwhile, other clients' uploads fail half-way (a body over the limit that arrives in two
+    // frames; a body cut off by a disconnect): none of that may reach anybody else's handler
+    let spoil_stop = std::sync::Arc::new(std::sync::atomic::AtomicBool::new(false));
+    let spoiler = {
+        let stop = spoil_stop.clone();
+        std::thread::spawn(move || {
+            use std::io::{Read, Write};
+            let (mut sent, mut refused) = (0u64, 0u64);
+            while !stop.load(std::sync::atomic::Ordering::SeqCst) && sent < 3000 {
+                sent += 1;
+                let Ok(mut s) = connect(addr) else { continue };
+                let target = if sent % 2 == 0 { "/raw" } else { "/json" };
+                let method = if sent % 2 == 0 { "PUT" } else { "POST" };
+                let head = format!(
+                    "{} {} HTTP/1.1\r\nhost: localhost\r\ncontent-type: application/json\r\ntransfer-encoding: chunked\r\nconnection: close\r\n\r\n",
+                    method, target
+                );
+                let chunk = |n: usize| -> Vec<u8> {
+                    let mut v = format!("{:x}\r\n", n).into_bytes();
+                    v.extend(std::iter::repeat(b'A').take(n));
+                    v.extend_from_slice(b"\r\n");
+                    v
+                };
+                let _ = s.write_all(head.as_bytes());
+                let _ = s.write_all(&chunk(BODY_CAP - 500));
+                let _ = s.flush();
+                std::thread::sleep(std::time::Duration::from_millis(2));
+                if sent % 3 == 0 {
+                    // cut off in mid-body
+                    drop(s);
+                    refused += 1;
+                    continue;
+                }
+                let _ = s.write_all(&chunk(1000));
+                let _ = s.write_all(b"0\r\n\r\n");
+                let mut buf = Vec::new();
+                let _ = s.read_to_end(&mut buf);
+                // (no bytes at all: the refusal was lost to a reset because the server closed
+                // with part of the upload unread - C18's concern, not this stream's)
+                if buf.starts_with(b"HTTP/1.1 400") || buf.is_empty() {
+                    refused += 1;
+                }
+            }
+            (sent, refused)
+        })
+    };
     for (conns, depth, rounds) in configs {
         let mut plans: Vec<Vec<Req>> = Vec::new();
         let mut seq = 0u64;
@@ -1227,9 +1273,13 @@ fn main() {
             }
         }
     }
+    spoil_stop.store(true, std::sync::atomic::Ordering::SeqCst);
+    let (sp_sent, sp_refused) = spoiler.join().expect("spoiler thread");
     let entered = ctx.count("all") - before_all;
     id += 1;
     out.line(&format!("ct {} {} {} => {}", id, sent_total, ok_total, entered));
+    id += 1;
+    out.line(&format!("sp {} {} => {}", id, if sp_sent > 0 { "some" } else { "none" }, (sp_sent == sp_refused) as u8));
     out.flush();
     rt.block_on(async {
         let _ = server.close().await;
